@@ -221,4 +221,5 @@ func runC06(e *Engine, r *Report) {
 	ruleReadRelease(e, r)
 	ruleReadBatchCopy(e, r)
 	ruleSingleNodeQuorum(e, r)
+	ruleRaftPredicates(e, r, "hasCommittedEntryAtCurrentTerm")
 }
